@@ -23,7 +23,7 @@ static const Tie ties[] = {
     {1, 1, (1ull << 53) + 1, 1ull << 53},
     {3, 3, 3 * (1ull << 53) + 1, 3 * (1ull << 53)},
     {1, 1, (1ull << 60) + 1, 1ull << 60},
-    {5, 7, (1ull << 62) + 2, 1ull << 62},
+    {7, 7, (1ull << 62) + 2, 1ull << 62},
 };
 template <typename F> static int probe(F cut_is_legal) {
     int yes = 0, no = 0;
